@@ -505,19 +505,29 @@ func (c *Ctx) finish(p *Prop, kf *knownFile, evPath string, seed int, start time
 		"variables_mapped_to_reference_names": c.canonSt.renamedValues,
 		"variables_left_unaligned":            c.canonSt.unaligned,
 	}
-	if c.norm != nil && len(c.norm.NewFuncs) > 0 {
+	if c.norm != nil && (len(c.norm.NewFuncs) > 0 || len(c.norm.FuncRenames) > 0 || c.norm.Delit > 0 || len(c.norm.Failed) > 0) {
 		cov["source_normalisation"] = map[string]interface{}{
 			"variables_mapped_to_reference_names": c.canonSt.renamedValues,
 			"variables_left_unaligned":            c.canonSt.unaligned,
 			"functions_not_in_reference_tree":     c.norm.NewFuncs,
+			"functions_analysed_under_their_reference_name": c.norm.FuncRenames,
 			"calls_inlined":                       c.norm.Inlined,
 			"declarations_dropped":                c.norm.Dropped,
 			"inlined_as_function_literal":         c.norm.Literal,
+			"statements_rewritten_to_reference_form": c.norm.Delit,
 			"failures":                            c.norm.Failed,
 			"abandoned":                           c.norm.Abandoned,
 		}
-		fmt.Printf("NOTE: %d function(s) not present in the reference tree; %d call(s) inlined before analysis (%s); positions marked ~ refer to the inlined text\n",
-			len(c.norm.NewFuncs), len(c.norm.Inlined), strings.Join(c.norm.NewFuncs, ", "))
+		if len(c.norm.NewFuncs) > 0 {
+			fmt.Printf("NOTE: %d function(s) not present in the reference tree; %d call(s) inlined before analysis (%s); positions marked ~ refer to the inlined text\n",
+				len(c.norm.NewFuncs), len(c.norm.Inlined), strings.Join(c.norm.NewFuncs, ", "))
+		}
+		if len(c.norm.FuncRenames) > 0 {
+			fmt.Printf("NOTE: renamed function(s) analysed under the name the rules know: %s\n", strings.Join(c.norm.FuncRenames, "; "))
+		}
+		if c.norm.Delit > 0 {
+			fmt.Printf("NOTE: %d statement(s) rewritten to the form of the reference tree before analysis (function literals called on the spot, counted loops, min/max clamps, maps.Copy); positions marked ~ refer to the rewritten text\n", c.norm.Delit)
+		}
 		for _, f := range c.norm.Failed {
 			fmt.Printf("NOTE: normalisation: %s\n", f)
 		}
